@@ -199,6 +199,20 @@ PROPS["C20"] = {
     "units": [U("TestVerif_C20_Spy", "./cmd/spy", R(600, shards=4, timeout=900), R(20000, shards=16, timeout=1500), race=True, replay_tries=3)],
 }
 
+EX = "explorer-backend"
+PROPS["C19"] = {
+    "rule": "(gate) guardian-set histories of 1..5 sets (sizes 1..19, partially overlapping membership) and sequences of pushes of VAAs that are valid / quorum-1 / "
+            "signed by an outsider / wrongly ordered / unsigned, signed by set i while naming set j or a future set, with duplicates, on persistence queues of "
+            "capacity 0..2 drained at generated points; (lookup) 1..4 goroutines calling GetGuardianSet(i) for existing i while 0..12 contiguous batches "
+            "(optionally repeating known sets) are appended, under the race detector; non-trivial = a VAA naming another set than the one that signed it, "
+            "or a lookup run with at least one append",
+    "assumptions": ["independent verifier refvaa; the explorer is built against the node module version pinned in its go.mod, as the repository builds it",
+                    "the chain RPC is an unreachable unix path, so a VAA naming an unknown set can only be refused", "duplicate suppression itself (ristretto, asynchronous) is not asserted"],
+    "units": [U("TestVerif_C19_Gate", "./processor", R(1500), R(10000, shards=16, timeout=1200), module=EX),
+              U("TestVerif_C19_Lookup", "./guardiansets", R(150, shards=2, timeout=900), R(3000, shards=16, timeout=1500), module=EX, race=True, crash_is_violation=True, replay_tries=5)],
+}
+PROPS["C07"]["units"].append(U("TestVerif_C07_ExplorerQuorum", "./processor", PLAIN, PLAIN, kind="plain", module=EX))
+
 def setup():
     """MANIFEST.setup_cmd: create stubs and warm the build cache for every harness binary."""
     work = os.path.join(vdriver.WORKROOT, "setup-%d" % os.getpid())
